@@ -410,7 +410,24 @@ type funcContext struct {
 	labelPc         map[int]int
 	gotosCount      int
 	unresolvedGotos map[int]*gotoLabelDesc
+	// nesting depth of the statement/expression being compiled (counted
+	// across enclosing functions); bounds the compiler's own recursion
+	syntaxLevel int
 }
+
+// maxSyntaxLevels bounds the nesting of blocks, functions and expressions.
+// The compiler recurses once per level: unbounded nesting (a few million
+// "not"s) would overflow the Go stack, which cannot be recovered from.
+const maxSyntaxLevels = 10000
+
+func (fc *funcContext) enterLevel(line int) {
+	fc.syntaxLevel++
+	if fc.syntaxLevel > maxSyntaxLevels {
+		raiseCompileError(fc, line, "chunk has too many syntax levels")
+	}
+}
+
+func (fc *funcContext) leaveLevel() { fc.syntaxLevel-- }
 
 func newFuncContext(sourcename string, parent *funcContext) *funcContext {
 	fc := &funcContext{
@@ -426,6 +443,9 @@ func newFuncContext(sourcename string, parent *funcContext) *funcContext {
 		unresolvedGotos: map[int]*gotoLabelDesc{},
 	}
 	fc.Blocks = []*codeBlock{fc.Block}
+	if parent != nil {
+		fc.syntaxLevel = parent.syntaxLevel
+	}
 	return fc
 }
 
@@ -652,6 +672,8 @@ func compileBlock(context *funcContext, chunk []ast.Stmt) { // {{{
 } // }}}
 
 func compileStmt(context *funcContext, stmt ast.Stmt, isLastStmt bool) { // {{{
+	context.enterLevel(sline(stmt))
+	defer context.leaveLevel()
 	switch st := stmt.(type) {
 	case *ast.AssignStmt:
 		compileAssignStmt(context, st)
@@ -1177,6 +1199,8 @@ func compileGotoStmt(context *funcContext, stmt *ast.GotoStmt) { // {{{
 } // }}}
 
 func compileExpr(context *funcContext, reg int, expr ast.Expr, ec *expcontext) int { // {{{
+	context.enterLevel(sline(expr))
+	defer context.leaveLevel()
 	code := context.Code
 	sreg := savereg(ec, reg)
 	sused := 1
@@ -1305,10 +1329,20 @@ func compileExprWithMVPropagation(context *funcContext, expr ast.Expr, reg *int,
 } // }}}
 
 func constFold(exp ast.Expr) ast.Expr { // {{{
+	return constFoldLevel(exp, 0)
+} // }}}
+
+// constFoldLevel folds constant arithmetic; beyond maxSyntaxLevels it leaves
+// the expression alone (compileExpr then reports the nesting error) instead of
+// recursing without bound.
+func constFoldLevel(exp ast.Expr, level int) ast.Expr { // {{{
+	if level > maxSyntaxLevels {
+		return exp
+	}
 	switch expr := exp.(type) {
 	case *ast.ArithmeticOpExpr:
-		lvalue, lisconst := lnumberValue(constFold(expr.Lhs))
-		rvalue, risconst := lnumberValue(constFold(expr.Rhs))
+		lvalue, lisconst := lnumberValue(constFoldLevel(expr.Lhs, level+1))
+		rvalue, risconst := lnumberValue(constFoldLevel(expr.Rhs, level+1))
 		if lisconst && risconst {
 			switch expr.Operator {
 			case "+":
@@ -1330,7 +1364,7 @@ func constFold(exp ast.Expr) ast.Expr { // {{{
 			return expr
 		}
 	case *ast.UnaryMinusOpExpr:
-		expr.Expr = constFold(expr.Expr)
+		expr.Expr = constFoldLevel(expr.Expr, level+1)
 		if value, ok := lnumberValue(expr.Expr); ok {
 			return &constLValueExpr{Value: LNumber(-value)}
 		}
@@ -1623,6 +1657,8 @@ func compileLogicalOpExpr(context *funcContext, reg int, expr *ast.LogicalOpExpr
 } // }}}
 
 func compileLogicalOpExprAux(context *funcContext, reg int, expr ast.Expr, ec *expcontext, thenlabel, elselabel int, hasnextcond bool, lb *lblabels) { // {{{
+	context.enterLevel(sline(expr))
+	defer context.leaveLevel()
 	// TODO folding constants?
 	code := context.Code
 	flip := 0
